@@ -167,11 +167,25 @@ func (t *SymbolTable) Verify() error {
 	return errs.ErrorOrNil()
 }
 
+// sortedTerminals returns the terminals of the symbol table in sorted order.
+// The table itself is traversed in a random order, which must not show in the diagnostics.
+func (t *SymbolTable) sortedTerminals() []grammar.Terminal {
+	all := make([]grammar.Terminal, 0, t.terminals.table.Size())
+	for a := range t.terminals.table.All() {
+		all = append(all, a)
+	}
+
+	sort.Quick(all, grammar.CmpTerminal)
+
+	return all
+}
+
 // ensureSingleDefs ensures every terminal has one and only one definition.
 func (t *SymbolTable) ensureSingleDefs() error {
 	var errs error
 
-	for a, e := range t.terminals.table.All() {
+	for _, a := range t.sortedTerminals() {
+		e, _ := t.terminals.table.Get(a)
 		if count := len(e.definitions); count == 0 {
 			errs = errors.Append(errs, fmt.Errorf("no definition for terminal %s", a))
 		} else if count > 1 {
@@ -193,8 +207,8 @@ func (t *SymbolTable) ensureDistinctDefs() error {
 	var errs error
 
 	reverse := make(map[string][]*TerminalDef)
-	for _, e := range t.terminals.table.All() {
-		if len(e.definitions) == 1 {
+	for _, a := range t.sortedTerminals() {
+		if e, _ := t.terminals.table.Get(a); len(e.definitions) == 1 {
 			def := e.definitions[0]
 			reverse[def.Value] = append(reverse[def.Value], def)
 		}
